@@ -248,7 +248,7 @@ func c13SuiteMessage(tier string) []c13Input {
 					if how == "4k" {
 						fr = 4096
 					}
-					in = append(in, c13Input{entry: "message." + g.name, class: class, desc: fmt.Sprintf("%s framing=%s enc=%v", desc, how, enc), served: len(payload) + 64, cap: g.cap, frame: fr, over: strings.Contains(class, "secret-marker+") && !strings.HasSuffix(class, "+10B") && strings.HasPrefix(g.name, "GetClassAdWithMaxSize"), run: func() (int, error) {
+					in = append(in, c13Input{entry: "message." + g.name, class: class, desc: fmt.Sprintf("%s framing=%s enc=%v", desc, how, enc), served: len(payload) + 64, cap: g.cap, frame: fr, over: (strings.Contains(class, "secret-marker+") && !strings.HasSuffix(class, "+10B") || strings.HasPrefix(class, "ad-over-cap/")) && strings.HasPrefix(g.name, "GetClassAdWithMaxSize"), run: func() (int, error) {
 						wire := c13Frame(payload, how, enc)
 						s, b := c13Stream(wire, enc)
 						err := g.f(message.NewMessageFromStream(s))
@@ -299,6 +299,34 @@ func c13SuiteMessage(tier string) []c13Input {
 		pl = append(pl, append(bytes.Repeat([]byte{'s'}, sz), 0)...)
 		pl = append(pl, 0, 0)
 		add(fmt.Sprintf("ad-secret-marker+%dB", sz), fmt.Sprintf("ad: marker then %d-byte secret", sz), pl)
+	}
+	// (ii') ads whose every item fits the cap but whose sum does not: k attributes (plain, or
+	// each sent as marker + secret) of s bytes, in the plaintext and in the length-prefixed form
+	for _, k := range []int{2, 5, 50} {
+		for _, sz := range []int{200, 1000, 3000} {
+			if k*sz <= 4096+512 {
+				continue
+			}
+			for _, secret := range []bool{false, true} {
+				for _, lp := range []bool{false, true} {
+					str := func(b []byte, v string) []byte {
+						if lp {
+							b = append(b, refcodec.EncInt(int64(len(v)+1))...)
+						}
+						return append(append(b, v...), 0)
+					}
+					pl := refcodec.EncInt(int64(k))
+					for i := 0; i < k; i++ {
+						if secret {
+							pl = str(pl, "ZKM")
+						}
+						pl = str(pl, fmt.Sprintf("Attr%d = \"%s\"", i, strings.Repeat("x", sz)))
+					}
+					pl = str(str(pl, ""), "")
+					add(fmt.Sprintf("ad-over-cap/%dx%dB/secret=%v/lenprefixed=%v", k, sz, secret, lp), fmt.Sprintf("ad of %d attributes of %d bytes (each below the cap, the sum above it)", k, sz), pl)
+				}
+			}
+		}
 	}
 	// (iii) many tiny expressions
 	{
@@ -803,7 +831,7 @@ func tail(s string) string {
 func C13Plan() *vlib.Plan {
 	p := &vlib.Plan{
 		Property: "C13", Level: "exploration",
-		Rule:   "Bounded structure-aware exhaustion of every decoder entry point: (stream) 5 receive entry points x {plain, AES-GCM} x all 1-byte strings, all strings of 2-3 (thorough 4) bytes over a 16-value header alphabet, end flag x length boundary product x {no, partial, full body}, runs of 10 / 10^3 / 2*10^5 empty and 1-byte partial frames; (message) 11 typed/ClassAd readers + GetBytes(n) for 17 boundary n, x {one frame, 1-byte frames, missing end} x both modes x payloads = boundary integer (17 values from MinInt64 to MaxInt64) followed by 9 string shapes (empty, unterminated, marker, cap-1/cap/cap+1/10xcap, 100 KB), every truncation of a valid ad, count field over the catalogue, secret marker followed by 10 B..900 KB, 20000 tiny expressions; (handshake) real ClientHandshake / ServerHandshake against scripted peers that put every catalogue integer into every length/count/status field they read (server ad, method reply, 5 exchangeKey fields, post-auth ad, SSL message length, FS result, 6 TOKEN step-2 fields; client ad, command, bitmask, CLAIMTOBE, 3 TOKEN step-1 fields, resumption request) and 4 KB..900 KB oversize ads; (text) all strings <= 5 (thorough 6) over 12-symbol alphabets through 8 parsers, crypto-state blob length fields. Oracle per input: no panic (recovered in the worker), no abort (out-of-memory under ulimit -v 6 GiB, stack overflow under a 16 MiB stack, attributed by the parent to the input in flight), no spin (15 s without progress), TotalAlloc <= 256 x (bytes served + cap) + 4 MiB, capped readers consume <= cap + one frame. Non-trivial = the decoder was invoked on the input (distinct inputs by construction).",
+		Rule:   "Bounded structure-aware exhaustion of every decoder entry point: (stream) 5 receive entry points x {plain, AES-GCM} x all 1-byte strings, all strings of 2-3 (thorough 4) bytes over a 16-value header alphabet, end flag x length boundary product x {no, partial, full body}, runs of 10 / 10^3 / 2*10^5 empty and 1-byte partial frames; (message) 11 typed/ClassAd readers + GetBytes(n) for 17 boundary n, x {one frame, 1-byte frames, missing end} x both modes x payloads = boundary integer (17 values from MinInt64 to MaxInt64) followed by 9 string shapes (empty, unterminated, marker, cap-1/cap/cap+1/10xcap, 100 KB), every truncation of a valid ad, count field over the catalogue, secret marker followed by 10 B..900 KB, ads of 2/5/50 attributes (plain or marker+secret, both string forms) each below the cap but summing above it, 20000 tiny expressions; (handshake) real ClientHandshake / ServerHandshake against scripted peers that put every catalogue integer into every length/count/status field they read (server ad, method reply, 5 exchangeKey fields, post-auth ad, SSL message length, FS result, 6 TOKEN step-2 fields; client ad, command, bitmask, CLAIMTOBE, 3 TOKEN step-1 fields, resumption request) and 4 KB..900 KB oversize ads; (text) all strings <= 5 (thorough 6) over 12-symbol alphabets through 8 parsers, crypto-state blob length fields. Oracle per input: no panic (recovered in the worker), no abort (out-of-memory under ulimit -v 6 GiB, stack overflow under a 16 MiB stack, attributed by the parent to the input in flight), no spin (15 s without progress), TotalAlloc <= 256 x (bytes served + cap) + 4 MiB, capped readers consume <= cap + one frame. Non-trivial = the decoder was invoked on the input (distinct inputs by construction).",
 		Assume: []string{"inputs outside the generated grammar are not covered (the property's fuzzing wording is claimed in this bounded form)", "memory judged by Go's TotalAlloc; SCITOKENS/KERBEROS readers not reached"},
 	}
 	p.Gen = func(tier string, yield func(vlib.Case)) {
